@@ -673,10 +673,11 @@ def check_version(res, case):
 
 
 def version_enumeration():
-    values = ["3.12", "3.5", "3", "3.12.1", "2.7", "3.x", ""]
+    # versions whose components end in 0 / contain 0 (3.10 is not 3.1), longer and shorter than the current one
+    values = ["3.12", "3.5", "3", "3.12.1", "2.7", "3.x", "", "3.10", "3.1", "3.0", "10.0", "3.20.0"]
     prefixes = ["use", "not", "only"]
     singles = ["%s.with_python.version=%s" % (p, v) for p in prefixes for v in values]
-    for cur in ("3.12", [3, 12], "3.5.2", [2, 7]):
+    for cur in ("3.12", [3, 12], "3.5.2", [2, 7], "3.10", [3, 1]):
         for op in ("eq", "ge", "le"):
             for t in singles:
                 yield {"kind": "version", "cur": cur, "op": op, "tags": [t]}
